@@ -388,3 +388,43 @@ impl KdfTrait for ScriptKdf {
     type HashImpl = ScriptHash;
     const KDF_ID: u16 = 0x7401;
 }
+
+// ---------------------------------------------------------------------------------------------
+// EndsHash / EndsKdf: a "sketch" hash for LONG inputs (64 KiB and more).  As a hash it is a
+// deterministic function of the concatenated message - its total length, its first 64 bytes, its
+// last byte and the bytes at a few fixed far positions - so it is sound for equalities with the
+// reference under any chunking, and each `update` costs O(1) symbolic-execution steps whatever
+// the (symbolic) length of the slice.  Never executed through the real hmac crate: the harnesses
+// that use it replace the hkdf crate by the stub layer (kani/hv/src/fasthkdf.rs).
+// ---------------------------------------------------------------------------------------------
+#[derive(Clone)]
+pub struct EndsHash {
+    pub pad: [u8; 32],
+}
+impl Default for EndsHash {
+    fn default() -> Self {
+        EndsHash { pad: [0u8; 32] }
+    }
+}
+impl HashMarker for EndsHash {}
+impl OutputSizeUser for EndsHash {
+    type OutputSize = U8;
+}
+impl BlockSizeUser for EndsHash {
+    type BlockSize = U8;
+}
+impl Update for EndsHash {
+    fn update(&mut self, _data: &[u8]) {}
+}
+impl FixedOutput for EndsHash {
+    fn finalize_into(self, out: &mut Output<Self>) {
+        for b in out.iter_mut() {
+            *b = 0;
+        }
+    }
+}
+pub struct EndsKdf;
+impl KdfTrait for EndsKdf {
+    type HashImpl = EndsHash;
+    const KDF_ID: u16 = 0x7501;
+}
